@@ -1456,6 +1456,33 @@ def m_str_trim_matches(ex, m, args, callee):
     return s_
 
 
+@model(r'^<impl str>::(find|rfind|split_at|split_once|rsplit_once)$')
+def m_str_find(ex, m, args, callee):
+    """byte offsets; modelled for concrete ASCII text only (a byte offset is then a character offset)"""
+    s_ = val(args[0])
+    k = m.group(1)
+    if not (isinstance(s_, str) and all(ord(c) < 128 for c in s_)):
+        raise Unmodelled('str::%s on non-concrete / non-ASCII text' % k)
+    if k == 'split_at':
+        i = args[1]
+        i = simp(i) if is_z3(i) else i
+        if not is_conc(i):
+            raise Unmodelled('str::split_at at a symbolic offset')
+        if not (0 <= int(i) <= len(s_)):
+            ex.panic('str::split_at: byte index out of bounds')
+        return Tup([s_[:int(i)], s_[int(i):]])
+    p_ = val(args[1])
+    if isinstance(p_, int) and not isinstance(p_, bool):
+        p_ = chr(p_)
+    if not isinstance(p_, str):
+        raise Unmodelled('str::%s with a non-concrete pattern' % k)
+    if k in ('find', 'rfind'):
+        i = s_.find(p_) if k == 'find' else s_.rfind(p_)
+        return some(ex, i) if i >= 0 else none(ex)
+    i = s_.find(p_) if k == 'split_once' else s_.rfind(p_)
+    return some(ex, Tup([s_[:i], s_[i + len(p_):]])) if i >= 0 else none(ex)
+
+
 @model(r'^(Cell|RefCell)::(new|get|set|replace|take|into_inner)$')
 def m_cell(ex, m, args, callee):
     k = m.group(2)
